@@ -10,8 +10,7 @@ from . import common
 
 ADR = {"Model.actuator_historyadr": "actuator", "Model.sensor_historyadr": "sensor"}
 NSAMP = {"Model.actuator_history": "actuator", "Model.sensor_history": "sensor"}
-WHOLE_BUFFER = {"support.get_state._get_state", "support.set_state._set_state"}
-WRITERS_OK = ("history.", "support.set_state")
+WRITERS_OK = ("history.",)
 
 
 def _fname(lc, root):
@@ -22,6 +21,12 @@ def _fname(lc, root):
 def run(db, res, tier):
   n = 0
   kernels = set()
+  # the state (de)serialisers move the whole buffer; they are identified by the launches of the public entry points,
+  # not by name (moving the kernel into a helper keeps its role)
+  WHOLE_BUFFER = {lc.fi.key for e in ("support.get_state", "support.set_state") for lc in db.trace_launch_ctxs(e)}
+  if len(WHOLE_BUFFER) < 2:
+    res.error(f"anchor vanished: state (de)serialiser kernels {sorted(WHOLE_BUFFER)}")
+  set_state_kernels = {lc.fi.key for lc in db.trace_launch_ctxs("support.set_state")}
   for lc in db.launch_ctxs():
     for a in lc.keval.accesses:
       if array_key(lc, a.root) != "Data.history" or len(a.idx) < 2:
@@ -59,7 +64,7 @@ def run(db, res, tier):
           ok, why = False, "negative offset term"
       res.ob(ok, cons, Finding("R-LAYOUT.8", f"{lc.name}|history-index|{why[:60]}", f"{form}: {why}. Expected one of off+0 (user), off+1 (cursor), off+2+p (times), off+2+n+p*dim+d (values)", a.loc), sample={"kernel": lc.name, "const": af.const, "n_coef": ns[0][1] if ns else 0, "kind": a.kind} if n % 25 == 1 else None)
       if a.is_write:
-        res.ob(lc.name.startswith(WRITERS_OK), f"{lc.name}|history-writer", Finding("R-LAYOUT.9", f"{lc.name}|history|unexpected-writer", "Data.history is written outside history.py / set_state", a.loc))
+        res.ob(lc.name.startswith(WRITERS_OK) or lc.name in set_state_kernels, f"{lc.name}|history-writer", Finding("R-LAYOUT.9", f"{lc.name}|history|unexpected-writer", "Data.history is written outside history.py / set_state", a.loc))
   res.floor("history accesses", n, 150)
   res.floor("history kernels", len(kernels), 7)
   # step path and the public readers use the same read functions
